@@ -686,28 +686,42 @@ func (c *Collection) FindOneAndDelete(ctx context.Context, filter interface{}, o
 		}
 	}
 
-	// delete documents
+	// delete documents and apply the projection as part of the transaction,
+	// a projection that fails on the document undoes the deletion
 	res, err := useTransaction(ctx, c.engine, true, func(txn *Transaction) (interface{}, error) {
-		return txn.Delete(c.handle, query, sort, 0, 1)
+		// remember state
+		catalog, dirty := txn.Catalog(), txn.Dirty()
+
+		// delete document
+		res, err := txn.Delete(c.handle, query, sort, 0, 1)
+		if err != nil {
+			return nil, err
+		}
+
+		// get list
+		list := res.Matched
+
+		// apply projection
+		if projection != nil {
+			list, err = mongokit.ProjectList(list, projection)
+			if err != nil {
+				txn.reset(catalog, dirty)
+				return nil, err
+			}
+		}
+
+		return list, nil
 	})
 	if err != nil {
 		return &SingleResult{err: err}
 	}
 
 	// get list
-	list := res.(*Result).Matched
+	list := res.(bsonkit.List)
 
 	// check list
 	if len(list) == 0 {
 		return &SingleResult{}
-	}
-
-	// apply projection
-	if projection != nil {
-		list, err = mongokit.ProjectList(list, projection)
-		if err != nil {
-			return &SingleResult{err: err}
-		}
 	}
 
 	return &SingleResult{doc: list[0]}
@@ -794,37 +808,45 @@ func (c *Collection) FindOneAndReplace(ctx context.Context, filter, replacement 
 
 	// insert document
 	res, err := useTransaction(ctx, c.engine, true, func(txn *Transaction) (interface{}, error) {
-		return txn.Replace(c.handle, query, sort, repl, upsert)
+		// remember state
+		catalog, dirty := txn.Catalog(), txn.Dirty()
+
+		// replace document
+		result, err := txn.Replace(c.handle, query, sort, repl, upsert)
+		if err != nil {
+			return nil, err
+		}
+
+		// get doc
+		var doc bsonkit.Doc
+		if result.Upserted != nil {
+			if returnAfter {
+				doc = result.Upserted
+			}
+		} else if len(result.Matched) > 0 {
+			doc = result.Matched[0]
+			if returnAfter && len(result.Modified) > 0 {
+				doc = result.Modified[0]
+			}
+		}
+
+		// apply the projection as part of the transaction, a projection
+		// that fails on the document undoes the write
+		if doc != nil && projection != nil {
+			doc, err = mongokit.Project(doc, projection)
+			if err != nil {
+				txn.reset(catalog, dirty)
+				return nil, err
+			}
+		}
+
+		return doc, nil
 	})
 	if err != nil {
 		return &SingleResult{err: err}
 	}
 
-	// get result
-	result := res.(*Result)
-
-	// get doc
-	var doc bsonkit.Doc
-	if result.Upserted != nil {
-		if returnAfter {
-			doc = result.Upserted
-		}
-	} else if len(result.Matched) > 0 {
-		doc = result.Matched[0]
-		if returnAfter && len(result.Modified) > 0 {
-			doc = result.Modified[0]
-		}
-	}
-
-	// apply projection
-	if doc != nil && projection != nil {
-		doc, err = mongokit.Project(doc, projection)
-		if err != nil {
-			return &SingleResult{err: err}
-		}
-	}
-
-	return &SingleResult{doc: doc}
+	return &SingleResult{doc: res.(bsonkit.Doc)}
 }
 
 // FindOneAndUpdate implements the ICollection.FindOneAndUpdate method.
@@ -913,37 +935,45 @@ func (c *Collection) FindOneAndUpdate(ctx context.Context, filter, update interf
 
 	// update documents
 	res, err := useTransaction(ctx, c.engine, true, func(txn *Transaction) (interface{}, error) {
-		return txn.Update(c.handle, query, sort, upd, 0, 1, upsert, arrayFilters)
+		// remember state
+		catalog, dirty := txn.Catalog(), txn.Dirty()
+
+		// update document
+		result, err := txn.Update(c.handle, query, sort, upd, 0, 1, upsert, arrayFilters)
+		if err != nil {
+			return nil, err
+		}
+
+		// get doc
+		var doc bsonkit.Doc
+		if result.Upserted != nil {
+			if returnAfter {
+				doc = result.Upserted
+			}
+		} else if len(result.Matched) > 0 {
+			doc = result.Matched[0]
+			if returnAfter && len(result.Modified) > 0 {
+				doc = result.Modified[0]
+			}
+		}
+
+		// apply the projection as part of the transaction, a projection
+		// that fails on the document undoes the write
+		if doc != nil && projection != nil {
+			doc, err = mongokit.Project(doc, projection)
+			if err != nil {
+				txn.reset(catalog, dirty)
+				return nil, err
+			}
+		}
+
+		return doc, nil
 	})
 	if err != nil {
 		return &SingleResult{err: err}
 	}
 
-	// get result
-	result := res.(*Result)
-
-	// get doc
-	var doc bsonkit.Doc
-	if result.Upserted != nil {
-		if returnAfter {
-			doc = result.Upserted
-		}
-	} else if len(result.Matched) > 0 {
-		doc = result.Matched[0]
-		if returnAfter && len(result.Modified) > 0 {
-			doc = result.Modified[0]
-		}
-	}
-
-	// apply projection
-	if doc != nil && projection != nil {
-		doc, err = mongokit.Project(doc, projection)
-		if err != nil {
-			return &SingleResult{err: err}
-		}
-	}
-
-	return &SingleResult{doc: doc}
+	return &SingleResult{doc: res.(bsonkit.Doc)}
 }
 
 // Indexes implements the ICollection.Indexes method.
